@@ -291,7 +291,7 @@ PROPS = {
                        ' Round 6: M6 every core class the interpreter reads back from main\'s globals is exported to each new module under the same name (found defect fd417cd). Round 8: M7 (an import at the call-depth limit fails before the module is registered), M3 covers every function used as a module loader, CC1 and N8 (a counter raised by one instruction and lowered by another is restored by unwinding) also run here.'
                        ' Rounds 9-10: CC2, R2 also run here.'
                        ' Round 11: M1\'s flag clauses fail closed (cannot decide) on a tree without the per-module flag.'
-                       ' Round 12: M1 no error exit before the registry look-up.',
+                       ' Round 12: M1 no error exit before the registry look-up; M8 the module body runs in the module registered for the import operand; M3 / M4 follow a load-and-compile helper.',
         'assumptions': COMMON_ASSUME,
         'not_decided': ['that every import yields the *same* object at run time (follows from the single registry writer, not executed)',
                         'that the built-ins behave the same in every module (only the set of exported names and the classes behind them is decided, by M6)'],
